@@ -211,7 +211,7 @@ def stage_det(ctx, rng, gbin):
     for name, (setup, sql) in ERR_QUERIES.items():
         for j in range(4 if quick else 30):
             cases.append(det_case("%s-%d" % (name, j), name, setup, sql, rng.choice(PARTS), sched(rng),
-                                  faithful_errors=True, **({"consumer_every": 5} if j % 2 else {})))
+                                  **({"consumer_every": 5} if j % 2 else {})))
     # cancellation at a random step
     cancel_names = ["hash_join", "group_by", "order_by_full", "large_result", "union_all", "materialized_cte"]
     for name in cancel_names:
@@ -286,8 +286,8 @@ def stage_det(ctx, rng, gbin):
         if r.get("polls_after_done"):
             viol.append(("a task that returned Ready(Ok) was polled again", dict(replay, polls_after_done=r["polls_after_done"])))
         if r.get("polls_after_error"):
-            known.append(("errored-task-repoll", dict(replay, polls_after_error=r["polls_after_error"],
-                                                      after_error_results=r.get("after_error_results"))))
+            viol.append(("a task was polled again after its poll_execute returned an error",
+                         dict(replay, polls_after_error=r["polls_after_error"], after_error_results=r.get("after_error_results"))))
         if c.get("_full"):
             full_rows[name] = collections.Counter(json.dumps(x) for x in (res or {}).get("rows", [])) if out[0] == "rows" else None
             if out[0] != "rows":
@@ -397,7 +397,7 @@ def stage_threaded(ctx, rng, gbin, gmodel):
         if int(f["after_done"]):
             viol.append(("a completed task was executed again", replay))
         if int(f["after_err"]):
-            known.append(("errored-task-repoll", replay))
+            viol.append(("a task was executed again after its execute() returned Err (done:E)", replay))
         if settled and int(f["alive"]):
             viol.append(("worker still alive after the log settled", replay))
     return {"traces": traces, "events": events, "violations": viol, "known": known,
